@@ -309,8 +309,14 @@ func c15Run(t *testing.T, wl any, sc SchedCfg) *Result {
 			e.Task("aborted-session", func() {
 				err0 = st.Start(context.Background())
 				e.S.Settle("aborted-session")
-				st.Stop()
-				e.S.Settle("aborted-session")
+				// the connection is gone by now and the stub has noticed; a plugin may call Stop before
+				// it starts again, or just start again
+				if w.AbortSplit%2 == 1 {
+					st.Stop()
+					e.S.Settle("aborted-session")
+				} else {
+					res.Probe("C15.restart-after-lost-connection-without-stop")
+				}
 			})
 			if err := e.RunUntil(300000, func() bool { return e.TasksDone() }); err != nil {
 				res.Violate("C15.restart", "the session with the aborted split synchronization did not end: %v; pending %v", err, e.S.Pending())
